@@ -417,53 +417,117 @@ func drawShape(s *core.Source, z maptile.Zoom, areaOnly bool) *shape {
 	switch s.Pick(kinds, "shape") {
 	case 0:
 		sh.class = "point/" + size
-		sh.pts = []pt{c}
 		sh.geom = toLonLat(c, z)
+		if s.Chance(1, 3, "multi") {
+			sh.class = "multipoint/" + size
+			mp := orb.MultiPoint{toLonLat(c, z)}
+			s.Repeat(0, 2, 4, "mpt", func(int) {
+				mp = append(mp, conv([]pt{{c[0] + r*(float64(s.Intn(2001, "dx"))/1000-1), c[1] + r*(float64(s.Intn(2001, "dy"))/1000-1)}})[0])
+			})
+			sh.geom = mp
+		}
 	case 1:
 		sh.class = "line/" + size
-		var ps []pt
-		nv := s.Range(2, 7, "nv")
-		for i := 0; i < nv; i++ {
-			ps = append(ps, pt{c[0] + r*(float64(s.Intn(2001, "dx"))/1000-1), c[1] + r*(float64(s.Intn(2001, "dy"))/1000-1)})
-		}
-		if s.Chance(1, 4, "snap") { // vertices (nearly) on tile corners: the DDA's tie cases
-			for i := range ps {
-				if fx, fy := math.Floor(ps[i][0]), math.Floor(ps[i][1]); fx > 0.02*n && fy > 0.02*n {
-					ps[i] = pt{fx, fy}
+		drawLine := func() orb.LineString {
+			var ps []pt
+			nv := s.Range(2, 7, "nv")
+			for i := 0; i < nv; i++ {
+				ps = append(ps, pt{c[0] + r*(float64(s.Intn(2001, "dx"))/1000-1), c[1] + r*(float64(s.Intn(2001, "dy"))/1000-1)})
+			}
+			if s.Chance(1, 4, "snap") { // vertices (nearly) on tile corners: the DDA's tie cases
+				for i := range ps {
+					if fx, fy := math.Floor(ps[i][0]), math.Floor(ps[i][1]); fx > 0.02*n && fy > 0.02*n {
+						ps[i] = pt{fx, fy}
+					}
 				}
 			}
-		}
-		if s.Chance(1, 5, "axis") { // axis-parallel segment through tile corners
-			ps[1][1] = ps[0][1]
-		}
-		if ps[0] == ps[1] { // positive length, staying within r of the centre
-			ps[1][0] = c[0] + r/2
-			if ps[0][0] == ps[1][0] {
-				ps[1][0] = c[0] - r/2
+			if s.Chance(1, 5, "axis") { // axis-parallel segment through tile corners
+				ps[1][1] = ps[0][1]
 			}
+			if ps[0] == ps[1] { // positive length, staying within r of the centre
+				ps[1][0] = c[0] + r/2
+				if ps[0][0] == ps[1][0] {
+					ps[1][0] = c[0] - r/2
+				}
+			}
+			return orb.LineString(conv(ps))
 		}
-		sh.lines = [][]pt{ps}
-		sh.geom = orb.LineString(conv(ps))
+		switch s.Pick([]int{5, 2, 2}, "linekind") {
+		case 0:
+			sh.geom = drawLine()
+		case 1:
+			sh.class = "multiline/" + size
+			ml := orb.MultiLineString{drawLine()}
+			s.Repeat(0, 1, 3, "ml", func(int) { ml = append(ml, drawLine()) })
+			sh.geom = ml
+		default:
+			// a segment symmetric about the world centre (a tile corner at every zoom >= 1):
+			// it crosses tile corners exactly, in any of the four diagonal directions
+			sh.class = "centre-symmetric-line/" + size
+			// half-length 1/4 .. 40 tiles at this zoom (the cover stays small at every zoom)
+			lon := float64(1+s.Intn(160, "lonk")) / 4 * 360 / n
+			if lon > 170 {
+				lon = 170
+			}
+			if s.Bool("west") {
+				lon = -lon
+			}
+			lat := math.Atan(math.Sinh(2*math.Pi*float64(1+s.Intn(160, "latk"))/4/n)) * 180 / math.Pi
+			if s.Bool("south") {
+				lat = -lat
+			}
+			if s.Bool("diag") {
+				// make |dx| == |dy| in tile space: choose lat so that the y offset equals the x offset
+				off := lon / 360 // fraction of the world
+				lat = math.Atan(math.Sinh(2*math.Pi*math.Abs(off))) * 180 / math.Pi
+				if s.Bool("south2") {
+					lat = -lat
+				}
+			}
+			if lat > 84 {
+				lat = 84
+			}
+			if lat < -84 {
+				lat = -84
+			}
+			sh.geom = orb.LineString{{lon, lat}, {-lon, -lat}}
+		}
 	case 2:
 		sh.class = "polygon/" + size
 		thin := s.Chance(1, 5, "thin")
 		if thin {
 			sh.class = "thinpolygon/" + size
 		}
-		outer := star(s, c, r/2, r, s.Range(6, 12, "nv"), thin)
-		poly := [][]pt{outer}
-		op := orb.Polygon{orb.Ring(conv(outer))}
-		if !thin && s.Chance(1, 2, "hole") {
-			hole := star(s, c, r/10, r/4, s.Range(6, 9, "nv"), false)
-			for i, j := 1, len(hole)-2; i < j; i, j = i+1, j-1 { // clockwise
-				hole[i], hole[j] = hole[j], hole[i]
+		drawPoly := func(c pt) orb.Polygon {
+			outer := star(s, c, r/2, r, s.Range(6, 12, "nv"), thin)
+			op := orb.Polygon{orb.Ring(conv(outer))}
+			if !thin && s.Chance(1, 2, "hole") {
+				hole := star(s, c, r/10, r/4, s.Range(6, 9, "nv"), false)
+				for i, j := 1, len(hole)-2; i < j; i, j = i+1, j-1 { // clockwise
+					hole[i], hole[j] = hole[j], hole[i]
+				}
+				op = append(op, orb.Ring(conv(hole)))
+				sh.class += "+hole"
 			}
-			poly = append(poly, hole)
-			op = append(op, orb.Ring(conv(hole)))
-			sh.class += "+hole"
+			return op
 		}
-		sh.rings = [][][]pt{poly}
-		sh.geom = op
+		switch s.Pick([]int{5, 1, 2, 2}, "polykind") {
+		case 0:
+			sh.geom = drawPoly(c)
+		case 1:
+			sh.class = "ring/" + size
+			sh.geom = drawPoly(c)[0]
+		case 2:
+			sh.class = "multipolygon/" + size
+			c2 := drawCenter(s, z, r)
+			sh.geom = orb.MultiPolygon{drawPoly(c), drawPoly(c2)}
+		default:
+			sh.class = "bound/" + size
+			w, h := r*(0.05+0.9*float64(s.Intn(100, "bw"))/100), r*(0.05+0.9*float64(s.Intn(100, "bh"))/100)
+			lo := conv([]pt{{c[0] - w, c[1] + h}})[0] // south-west: larger y is further south
+			hi := conv([]pt{{c[0] + w, c[1] - h}})[0]
+			sh.geom = orb.Bound{Min: lo, Max: hi}
+		}
 	default:
 		sh.class = "collection/" + size
 		a := drawShape(s, z, false)
@@ -471,15 +535,53 @@ func drawShape(s *core.Source, z maptile.Zoom, areaOnly bool) *shape {
 		for _, m := range []*shape{a, b} {
 			if _, ok := m.geom.(orb.Collection); ok {
 				m.geom = orb.Collection{} // keep nesting shallow
-				m.lines, m.rings, m.pts = nil, nil, nil
 			}
 		}
 		sh.geom = orb.Collection{a.geom, b.geom}
-		sh.lines = append(a.lines, b.lines...)
-		sh.rings = append(a.rings, b.rings...)
-		sh.pts = append(a.pts, b.pts...)
 	}
 	return sh
+}
+
+// parts derives, from the lon/lat geometry handed to orb, the oracle's own
+// tile-fraction view of it (its own projection formula).
+func (sh *shape) parts(g orb.Geometry, z maptile.Zoom) {
+	fr := func(ps []orb.Point) []pt {
+		out := make([]pt, len(ps))
+		for i, p := range ps {
+			out[i] = frac(p, z)
+		}
+		return out
+	}
+	switch x := g.(type) {
+	case orb.Point:
+		sh.pts = append(sh.pts, frac(x, z))
+	case orb.MultiPoint:
+		sh.pts = append(sh.pts, fr(x)...)
+	case orb.LineString:
+		sh.lines = append(sh.lines, fr(x))
+	case orb.MultiLineString:
+		for _, l := range x {
+			sh.lines = append(sh.lines, fr(l))
+		}
+	case orb.Ring:
+		sh.rings = append(sh.rings, [][]pt{fr(x)})
+	case orb.Polygon:
+		var poly [][]pt
+		for _, r := range x {
+			poly = append(poly, fr(r))
+		}
+		sh.rings = append(sh.rings, poly)
+	case orb.MultiPolygon:
+		for _, p := range x {
+			sh.parts(p, z)
+		}
+	case orb.Bound:
+		sh.rings = append(sh.rings, [][]pt{fr(x.ToRing())})
+	case orb.Collection:
+		for _, m := range x {
+			sh.parts(m, z)
+		}
+	}
 }
 
 const guard = 1e-6
@@ -579,22 +681,7 @@ func RunCover(t *core.T) {
 	z := maptile.Zoom(s.Pick([]int{1, 1, 1, 2, 2, 2, 2, 2, 2, 2, 2, 2, 2, 2, 2, 2, 2, 2, 2, 2, 2, 2, 2}, "zoom"))
 	sh := drawShape(s, z, false)
 	// the oracle's own fractions, recomputed from the lon/lat handed to orb
-	refr := func(ps []pt) []pt {
-		out := make([]pt, len(ps))
-		for i, p := range ps {
-			out[i] = frac(toLonLat(p, z), z)
-		}
-		return out
-	}
-	for i := range sh.lines {
-		sh.lines[i] = refr(sh.lines[i])
-	}
-	for i := range sh.rings {
-		for j := range sh.rings[i] {
-			sh.rings[i][j] = refr(sh.rings[i][j])
-		}
-	}
-	sh.pts = refr(sh.pts)
+	sh.parts(sh.geom, z)
 	t.Logf("zoom %d shape %s: %v", z, sh.class, sh.geom)
 	var set maptile.Set
 	var err error
